@@ -206,6 +206,15 @@ Print Assumptions C20_fail_delay.
    name are derived from the wrapped application and the machine, so two instances around the same
    application share them by design.  That configuring or using one instance does not open another is
    checked on real instances by the harness (instance-isolation stage).
+   Assigning app.pin on the server side (the pin setter) at this commit stores the value in _pin and
+   does nothing else: the model step is  pin := value, counter unchanged  (c_pin is configuration, the
+   counter is state; C20_lockout quantifies over the requests only, so an assignment between two
+   requests leaves its conclusion intact).  One quirk of the code: pin_cookie_name derives
+   (_pin, _pin_cookie) together when _pin_cookie does not exist yet, so an assignment made on a FRESH
+   instance, before the cookie name was ever read, is overwritten by the derived PIN at the first
+   request that checks the cookie; after that, assignments stick.  The harness assigns app.pin (the
+   same and new values) at every position of the lock-out histories on the real instance: the
+   counter does not move and the lock-out stays.
    What each switch rules out: *)
 Theorem C20_config : forall r count,
   (a_evalex r = false -> match fst (step r count) with OEval | OConsole _ => False | _ => True end) /\
